@@ -62,9 +62,13 @@ func (g *gen) noAliasMessage(m *Message) {
 func (g *gen) aliasHarness(m *Message, f *Field) {
 	n := m.GoName
 	g.p("// decoding neither modifies nor retains the input buffer")
+	depth := 1
+	if f.Card == "map" {
+		depth = 0 // values of message-valued maps: empty or fixed (their own types have their own harnesses)
+	}
 	g.p("func VH_C07_%s_%s_dec() {", n, f.GoName)
 	g.p("\tsrc := &%s{}", n)
-	g.p("\tvhBuild_%s_%s(src, \"a\", 1)", n, f.GoName)
+	g.p("\tvhBuild_%s_%s(src, \"a\", %d)", n, f.GoName, depth)
 	g.p("\tbuf := vhSpec_%s([]byte{}, src)", n)
 	g.p("\tsnap := vhSnapshot(buf)")
 	g.p("\tx := &%s{}", n)
